@@ -5,7 +5,7 @@ import importlib
 import os
 import sys
 
-from .report import Report, guarded, AnalysisError
+from .report import Report, guarded, AnalysisError, TimeBudgetExceeded
 from .vfs import Tree
 
 PROPS = ["C02", "C03", "C04", "C05", "C07", "C08", "C09", "C10", "C11", "C12", "C13", "C14", "C16", "C17", "C18", "C19"]
@@ -36,6 +36,16 @@ def main(argv=None):
     ap.add_argument("--tier", default=os.environ.get("VERIF_TIER", "quick"), choices=["quick", "thorough"])
     ap.add_argument("--root", default="/repo")
     a = ap.parse_args(argv)
+
+    # wall-clock guard: a construct that sends an engine into a very long computation ends the run without a verdict
+    import signal
+    limit = int(os.environ.get("SA_TIME_LIMIT", "900" if a.tier == "quick" else "5400"))
+
+    def _alarm(signum, frame):
+        raise TimeBudgetExceeded(f"time budget of {limit} s exceeded: no verdict")
+    if hasattr(signal, "SIGALRM") and a.prop not in ("selftest",):
+        signal.signal(signal.SIGALRM, _alarm)
+        signal.alarm(limit)
 
     def go():
         if a.prop == "selftest":
